@@ -714,6 +714,59 @@ func importRules(r *Run, p *Prog, w *genWalker, root string) {
 	for _, b := range bodies {
 		ast.Inspect(b, inspect)
 	}
+	// an unconditional `imports = append(imports, "\"path\"")` (not inside any if/switch/loop body) is part of the
+	// always-imported list, like a member of the initial literal
+	for _, b := range bodies {
+		conditional := map[*ast.CallExpr]bool{}
+		ast.Inspect(b, func(n ast.Node) bool {
+			var inner ast.Node
+			switch x := n.(type) {
+			case *ast.IfStmt:
+				inner = x
+			case *ast.SwitchStmt:
+				inner = x
+			case *ast.ForStmt:
+				inner = x
+			case *ast.RangeStmt:
+				inner = x
+			case *ast.FuncLit:
+				inner = x
+			}
+			if inner != nil {
+				ast.Inspect(inner, func(y ast.Node) bool {
+					if c, ok := y.(*ast.CallExpr); ok && y != n {
+						conditional[c] = true
+					}
+					return true
+				})
+			}
+			return true
+		})
+		ast.Inspect(b, func(n ast.Node) bool {
+			c, ok := n.(*ast.CallExpr)
+			if !ok || conditional[c] {
+				return true
+			}
+			id, ok := c.Fun.(*ast.Ident)
+			if !ok || id.Name != "append" || len(c.Args) < 2 {
+				return true
+			}
+			if at, ok := info.TypeOf(c.Args[0]).Underlying().(*types.Slice); !ok || !types.Identical(at.Elem(), types.Typ[types.String]) {
+				return true
+			}
+			for _, e := range c.Args[1:] {
+				if tv, ok := info.Types[e]; ok && tv.Value != nil && tv.Value.Kind() == constant.String {
+					path := strings.Trim(constant.StringVal(tv.Value), `"`)
+					if strings.Contains(path, "/") {
+						if _, have := decided[path[strings.LastIndex(path, "/")+1:]]; !have {
+							decided[path[strings.LastIndex(path, "/")+1:]] = "always imported"
+						}
+					}
+				}
+			}
+			return true
+		})
+	}
 	var qs []string
 	for q := range quals {
 		qs = append(qs, q)
